@@ -226,7 +226,7 @@ fn distributor_history(acc: &mut Acc, r: &mut Rng, steps: u64) {
 }
 
 pub fn run(ctx: &Ctx) -> (CheckMeta, Acc) {
-    let n = ctx.tier.pick(80, 640);
+    let n = ctx.tier.pick(800, 80000);
     let steps = ctx.tier.pick(40, 80);
     let ph = hash_str("C20");
     let total = run_shards(ctx, 16, |sh, acc| {
